@@ -2,6 +2,7 @@ package main
 
 import (
 	"fmt"
+	"go/types"
 	"os"
 	"go/token"
 	"regexp"
@@ -311,7 +312,12 @@ func (kc *kernelCtx) runFunc(b *Block) *Unit {
 		}
 	}
 	mkEnv := func(st *State, ex *Exit) *Env {
-		env := &Env{X: x, St: st, Vars: map[string]SVal{}, Recv: recvName, Fields: fields, Events: st.Events, Track: trackFn, Alias: alias, Exit: ex, UserFn: map[string]bool{}}
+		env := &Env{X: x, St: st, Vars: map[string]SVal{}, Recv: recvName, Fields: fields, FieldType: func(f string) types.Type {
+			if ts == nil {
+				return nil
+			}
+			return kc.fieldType(ts.Name, f)
+		}, Events: st.Events, Track: trackFn, Alias: alias, Exit: ex, UserFn: map[string]bool{}}
 		if len(st.Frames) > 0 {
 			fr := st.Frames[0]
 			for _, p := range fr.Fn.Params {
@@ -324,7 +330,7 @@ func (kc *kernelCtx) runFunc(b *Block) *Unit {
 	}
 	x.H = kc.hooks(b, ts, recvName, inline, mkEnv)
 	// initial state
-	st := &State{Heap: map[string]SVal{}, Zero: map[string]bool{}, Init: map[string]SVal{}, Held: map[string]bool{}, Ghost: map[string]string{}, Named: map[string]string{}, Written: map[string]bool{}}
+	st := &State{Heap: map[string]SVal{}, Zero: map[string]bool{}, Init: map[string]SVal{}, Held: map[string]bool{}, Ghost: map[string]string{}, Named: map[string]string{}, NamedV: map[string]SVal{}, Written: map[string]bool{}}
 	if ts != nil {
 		for g, sort := range ts.Ghost {
 			st.Ghost[g] = q(d.constOf(g+"@pre", sort))
@@ -471,6 +477,21 @@ func (kc *kernelCtx) runFunc(b *Block) *Unit {
 	return u
 }
 
+// pureSpec: an uninterpreted callee; `nonnil` adds the assumed fact that its result is not nil.
+func pureSpec(name string, pb *Block) *CalleeSpec {
+	cs := &CalleeSpec{Pure: name}
+	if pb.first("nonnil") != nil {
+		cs.Post = func(x *Exec, st *State, args []SVal, res []SVal) {
+			for _, r := range res {
+				if r.K == KU {
+					st.assume(not(eq(r.T, "nil")))
+				}
+			}
+		}
+	}
+	return cs
+}
+
 func dedup(xs []string) []string {
 	seen := map[string]bool{}
 	var out []string
@@ -561,14 +582,14 @@ func (kc *kernelCtx) hooks(b *Block, ts *TypeSpec, recv string, inline map[strin
 			if c := pb.first("as"); c != nil {
 				name = strings.TrimSpace(c.Text)
 			}
-			return &CalleeSpec{Pure: name}
+			return pureSpec(name, pb)
 		}
 		if pb := kc.pures[pkgPathOf(fn)+"::"+key]; pb != nil {
 			name := key
 			if c := pb.first("as"); c != nil {
 				name = strings.TrimSpace(c.Text)
 			}
-			return &CalleeSpec{Pure: name}
+			return pureSpec(name, pb)
 		}
 		return nil
 	}
@@ -695,9 +716,12 @@ func (kc *kernelCtx) hooks(b *Block, ts *TypeSpec, recv string, inline map[strin
 			if _, isGhost := ts.Ghost[f]; isGhost {
 				continue
 			}
-			if v, ok := st.Heap[recv+"."+f]; ok && (v.K == KInt || v.K == KBool || v.K == KU) {
-				st.Named["atlock("+f+")"] = v.T
-				st.Named["sort:atlock("+f+")"] = x.sortOfVal(v)
+			if t := kc.fieldType(ts.Name, f); t != nil {
+				v := x.load(st, recv+"."+f, t, token.NoPos)
+				if v.K == KSlice {
+					v.Snap = x.arrTerm(st, v)
+				}
+				st.NamedV["atlock("+f+")"] = v
 			}
 		}
 	}
@@ -720,6 +744,21 @@ func (kc *kernelCtx) hooks(b *Block, ts *TypeSpec, recv string, inline map[strin
 				continue
 			}
 			x.obl(st, fmt.Sprintf("lockinv:%s#%d", lock, i), g, "lock invariant re-established at unlock: "+inv, pos)
+		}
+		for f, l := range ts.Prot {
+			if l != lock {
+				continue
+			}
+			if _, isGhost := ts.Ghost[f]; isGhost {
+				continue
+			}
+			if t := kc.fieldType(ts.Name, f); t != nil {
+				v := x.load(st, recv+"."+f, t, token.NoPos)
+				if v.K == KSlice {
+					v.Snap = x.arrTerm(st, v)
+				}
+				st.NamedV["atunlock("+f+")"] = v
+			}
 		}
 		for i, c := range ts.LockGuar[lock] {
 			g, err := env.evalBool(c.Text)
